@@ -253,6 +253,9 @@ func runEvents(c *core.Ctx, sc *scratch, i int, ok *int) {
 		c.Oracle(i, entryDirect, "emitted-uri-event-not-fetched-verbatim", gen, "err=%v urls=%v want [%s]", err, g.urls, wantURI)
 	}
 	*ok++
+	if *ok == 1 {
+		c.Sample(map[string]any{"family": "events", "image_sha384": lowerHex(digest[:]), "uri_locator": wantURI, "variable_locator_hex": lowerHex(wantVar), "manifest_guid_wire": lowerHex(guids[0][:]), "events_file": base + ".evts.pb"})
+	}
 	c.Cell("events|size=%#x|order=%v|svn=%d|dir=%d", size, order, svn, strings.Count(snapDir+imageName, "/"))
 }
 
